@@ -1,6 +1,7 @@
 package main
 
 import (
+	"strings"
 	"fmt"
 	"go/ast"
 	"go/constant"
@@ -935,6 +936,9 @@ func (vc *VC) toInterface(st *State, v *Value, from, to types.Type) *Value {
 	case VBool:
 		return intV(app("mkiface", tag, smtIte(v.Term, "1", "0")), to)
 	}
+	if p := vc.packStruct(v, from); p != "" {
+		return intV(app("mkiface", tag, p), to)
+	}
 	// composite values boxed into an interface: opaque box (contents not tracked)
 	b := vc.fresh("box", "Int")
 	vc.dropped["composite value boxed into interface (contents not tracked)"] = true
@@ -959,5 +963,52 @@ func (vc *VC) evalTypeAssert(st *State, x *ast.TypeAssertExpr) (*Value, string) 
 		return &Value{K: VBool, T: T, Term: smtAnd(ok, smtEq(app("ptrof", v.Term), "1"))}, ok
 	}
 	r := vc.freshValue(st, "unboxed", T)
+	if p := vc.packStruct(r, T); p != "" {
+		// a struct of scalars travels through an interface as an injective tuple of its leaves
+		st.assume(smtImp(ok, smtEq(p, app("ptrof", v.Term))))
+	}
 	return r, ok
+}
+
+// packStruct: the value of a struct whose leaves are all scalars, as one Int (an injective tuple constructor per
+// struct type); "" when the value holds slices.
+func (vc *VC) packStruct(v *Value, T types.Type) string {
+	if v == nil || v.K != VStruct {
+		return ""
+	}
+	var ls []string
+	okAll := true
+	v.leaves("", func(path string, leaf *Value, isBool bool) {
+		if strings.Contains(path, "#") {
+			okAll = false
+			return
+		}
+		if isBool {
+			ls = append(ls, smtIte(leaf.Term, "1", "0"))
+		} else {
+			ls = append(ls, leaf.Term)
+		}
+	})
+	if !okAll || len(ls) == 0 {
+		return ""
+	}
+	f := "pack!" + vc.typeTag(T)
+	if _, ok := vc.decls[f]; !ok {
+		doms := strings.TrimSpace(strings.Repeat("Int ", len(ls)))
+		vc.declareFun(f, "("+doms+") Int")
+		var bs, xs []string
+		for i := range ls {
+			bs = append(bs, fmt.Sprintf("(x%d Int)", i))
+			xs = append(xs, fmt.Sprintf("x%d", i))
+		}
+		call := "(" + f + " " + strings.Join(xs, " ") + ")"
+		var eqs []string
+		for i := range ls {
+			u := fmt.Sprintf("un%d!%s", i, f)
+			vc.declareFun(u, "(Int) Int")
+			eqs = append(eqs, smtEq(app(u, call), xs[i]))
+		}
+		vc.addAxiomKeyed([]string{f}, "(forall ("+strings.Join(bs, " ")+") (! "+smtAnd(eqs...)+" :pattern ("+call+")))")
+	}
+	return "(" + f + " " + strings.Join(ls, " ") + ")"
 }
